@@ -27,9 +27,49 @@ def universe(tier, which):
 def init():
     # the host grammar is compiled twice under the same name: the module in use is a re-compilation
     # (pickling must follow the module that is installed now)
-    ox.host(HOSTNAME)
+    g0 = ox.host(HOSTNAME)
     g = ox.host(HOSTNAME)
-    return {'g': g}
+    return {'g': g, 'g0': g0}
+
+
+CHAIN = ['grammar %(a)s\nclass K1 { a: "1" }\nclass K2 { a: "2"; b: K1 }\nstart = K2\n',
+         'grammar %(b)s extends %(a)s\nclass B1 { x: K1; y: "b" }\nMid = B1\n',
+         'grammar %(c)s extends %(b)s\nclass C1 { p: B1; q: K2? }\nstart = C1\n']
+
+
+def chain_job(st):
+    """objects of a three-level chain: repr / copy / pickle in the namespace of the most derived module"""
+    res = {'ctr': {'cases': 0, 'nontrivial': 0, 'states': 0, 'transitions': 0}, 'sets': {}, 'viol': [], 'viol_keys': []}
+    sigs = set()
+    names = {'a': 'vf_c14_a', 'b': 'vf_c14_b', 'c': 'vf_c14_c'}
+    mods = []
+    for d in CHAIN:
+        b = impl.build(d % names)
+        if b[0] != 'OK':
+            viol(res, sigs, 'chain COMPILE', (('chain',),), list(b))
+            return res
+        mods.append(b[1])
+    top = mods[-1]
+    for text in ('1b', '1b21'):
+        r = top.parse(text)
+        for o in top.visit(r):
+            for name, f in (('repr', lambda: eval(repr(o), dict(vars(top))) == o),
+                            ('deepcopy', lambda: copy.deepcopy(o) == o),
+                            ('pickle', lambda: pickle.loads(pickle.dumps(o)) == o)):
+                res['ctr']['cases'] += 1
+                res['ctr']['states'] += 1
+                res['ctr']['nontrivial'] += 1
+                try:
+                    ok = f()
+                    why = None if ok else 'not equal'
+                except Exception as x:
+                    why = '%s' % type(x).__name__
+                if why:
+                    viol(res, sigs, 'chain-%s %s' % (name, why), (('chain', type(o).__name__, text),), why)
+    for n in names.values():
+        impl.uninstall(n)
+    res['sample'] = {'chain': [d % names for d in CHAIN]}
+    return res
 
 
 def same_value(g, got, want):
@@ -44,7 +84,7 @@ def same_value(g, got, want):
 
 
 def viol(res, sigs, sig, script, extra=None):
-    case = {'script': [list(map(str, s)) for s in script], 'op': sig, 'extra': extra}
+    case = {'script': [list(map(str, s)) if isinstance(s, (tuple, list)) else [str(s)] for s in script], 'op': sig, 'extra': extra}
     key = case_key(case)
     res['viol_keys'].append((key, sig))
     if sig not in sigs:
@@ -111,6 +151,15 @@ def single_job(job, st):
                 return 'order'
             if any(d[f] is not getattr(r, f) for f in d):
                 return 'values'
+            # an attribute a user sets on a node is not a field
+            r.user_note = 5
+            try:
+                if list(r._asdict()) != list(ox.FIELDS[type(r).__name__]):
+                    return 'non-field attribute in _asdict'
+                if not (r == ox.construct(script, g)[-1]):
+                    return 'non-field attribute changes =='
+            finally:
+                del r.user_note
         op('asdict', t_asdict)
 
         def t_replace():
@@ -172,9 +221,16 @@ def single_job(job, st):
     return res
 
 
-def extra_roots(g):
-    """objects obtained from parse (real position metadata) and their hand-built equals"""
+def extra_roots(g, g0=None):
+    """objects obtained from parse (real position metadata) and their hand-built equals; with g0 also objects of
+    look-alike classes: the same description compiled earlier under the same name (a different class: never equal)"""
     out = []
+    if g0 is not None:
+        out.append(g0.K2('2', '3'))
+        out.append(g0.K1('1'))
+        out.append(g0.K0())
+        out.append(g0.K2.parse('23'))
+        out.append(g0.Infix(g0.K1('1'), '+', [g0.K0()]))
     out.append(g.K2.parse('23'))
     out.append(g.K2.parse('x23', 1))
     out.append(g.K2('2', '3'))
@@ -199,8 +255,8 @@ def pair_job(job, st):
         scripts = universe(tier, 'pairs')
         roots = [ox.construct(s, g)[-1] for s in scripts]
         roots2 = [ox.construct(s, g)[-1] for s in scripts]      # an independent second build
-        ex = extra_roots(g)
-        st[key] = (scripts, roots + ex, roots2 + extra_roots(g))
+        ex = extra_roots(g, st['g0'])
+        st[key] = (scripts, roots + ex, roots2 + extra_roots(g, st['g0']))
     scripts, A, Bs = st[key]
     n = len(A)
     classes = {}
@@ -246,6 +302,8 @@ def pair_job(job, st):
 
 
 def dispatch(job, st):
+    if job[0] == 'chain':
+        return chain_job(st)
     if job[0] == 'single':
         return single_job(job[1:], st)
     return pair_job(job[1:], st)
@@ -261,7 +319,7 @@ def run(tier, seed):
                 'hand-built equals: == vs reference structural equality, symmetry, !=, hash; triples inside equality classes; '
                 'non-trivial = graphs with containers or sharing (single) / equal pairs (pairs)')
     chk.assumptions = ['reference structural equality vf/ox.py:ref_eq', 'CPython copy/pickle protocols']
-    jobs = [('single', tier, k) for k in range(NSLICES)] + [('pairs', tier, k) for k in range(NSLICES)]
+    jobs = [('chain',)] + [('single', tier, k) for k in range(NSLICES)] + [('pairs', tier, k) for k in range(NSLICES)]
     chk.explore(dispatch, jobs, init=init, chunk=1, job_deadline=900)
     return chk.finish(floor=1000)
 
